@@ -58,6 +58,7 @@ Proof.
   unfold parse_spec, parse_tbl, in_names, rtmp_tbl_parse_responses, rtmp_tbl_parse_requests,
     rtmp_tbl_parse_names, rtmp_tbl_parse_default, rtmp_tbl_parse_consumes.
   cbn [existsb assoc_name]. rewrite orb_false_r.
+  rewrite (orb_comm (bytes_eqb name (string_bytes "_error"))).
   change (string_bytes "_result") with cResult. change (string_bytes "_error") with cError.
   change (string_bytes "connect") with cConnect. change (string_bytes "createStream") with cCreateStream.
   change (string_bytes "play") with cPlay. change (string_bytes "publish") with cPublish.
@@ -101,30 +102,30 @@ Definition decode_tbl (t : tx) (mt : N) (payload : bytes) : res pkt * tx :=
 Theorem decode_message_is_source_table t mt payload :
   decode_message t mt payload = decode_tbl t mt payload.
 Proof.
-  unfold decode_message, decode_tbl, skip_tbl, receiver_tbl, rtmp_tbl_decode_skip, rtmp_tbl_decode_types.
   destruct payload as [|x tl]; [reflexivity|].
-  cbn [existsb assoc_type]. rewrite orb_false_r.
-  change (Z.to_N 17) with mtAMF3Command. change (Z.to_N 15) with mtAMF3Data.
-  change (Z.to_N 1) with mtSetChunkSize. change (Z.to_N 5) with mtWinAck. change (Z.to_N 6) with mtSetPeerBw.
-  change (Z.to_N 20) with mtAMF0Command. change (Z.to_N 18) with mtAMF0Data. change (Z.to_N 4) with mtUserControl.
-  set (p := if (mt =? mtAMF3Command) || (mt =? mtAMF3Data) then tl else x :: tl).
-  unfold is_amf_type.
-  destruct (mt =? mtSetChunkSize); [reflexivity|].
-  destruct (mt =? mtWinAck); [reflexivity|].
-  destruct (mt =? mtSetPeerBw); [reflexivity|].
-  destruct (mt =? mtAMF0Command); cbn [orb].
-  { change (String.eqb "parseAMFObject" "parseAMFObject") with true. cbv iota.
-    destruct (parse_amf_object t p) as [[r|e|s] t']; reflexivity. }
-  destruct (mt =? mtAMF3Command); cbn [orb].
-  { change (String.eqb "parseAMFObject" "parseAMFObject") with true. cbv iota.
-    destruct (parse_amf_object t p) as [[r|e|s] t']; reflexivity. }
-  destruct (mt =? mtAMF0Data); cbn [orb].
-  { change (String.eqb "parseAMFObject" "parseAMFObject") with true. cbv iota.
-    destruct (parse_amf_object t p) as [[r|e|s] t']; reflexivity. }
-  destruct (mt =? mtAMF3Data); cbn [orb].
-  { change (String.eqb "parseAMFObject" "parseAMFObject") with true. cbv iota.
-    destruct (parse_amf_object t p) as [[r|e|s] t']; reflexivity. }
-  destruct (mt =? mtUserControl); reflexivity.
+  Opaque parse_amf_object unmarshal.
+  destruct (N.eqb_spec mt 1) as [->|H1]; [reflexivity|].
+  destruct (N.eqb_spec mt 4) as [->|H4]; [reflexivity|].
+  destruct (N.eqb_spec mt 5) as [->|H5]; [reflexivity|].
+  destruct (N.eqb_spec mt 6) as [->|H6]; [reflexivity|].
+  destruct (N.eqb_spec mt 15) as [->|H15];
+    [cbn; destruct (parse_amf_object t tl) as [[r|e|s] t']; reflexivity|].
+  destruct (N.eqb_spec mt 17) as [->|H17];
+    [cbn; destruct (parse_amf_object t tl) as [[r|e|s] t']; reflexivity|].
+  destruct (N.eqb_spec mt 18) as [->|H18];
+    [cbn; destruct (parse_amf_object t (x :: tl)) as [[r|e|s] t']; reflexivity|].
+  destruct (N.eqb_spec mt 20) as [->|H20];
+    [cbn; destruct (parse_amf_object t (x :: tl)) as [[r|e|s] t']; reflexivity|].
+  Transparent parse_amf_object unmarshal.
+  apply N.eqb_neq in H1, H4, H5, H6, H15, H17, H18, H20.
+  unfold decode_message, decode_tbl, skip_tbl, receiver_tbl, rtmp_tbl_decode_skip, rtmp_tbl_decode_types,
+    is_amf_type.
+  cbn [existsb assoc_type].
+  change (Z.to_N 1) with 1. change (Z.to_N 4) with 4. change (Z.to_N 5) with 5. change (Z.to_N 6) with 6.
+  change (Z.to_N 15) with 15. change (Z.to_N 17) with 17. change (Z.to_N 18) with 18. change (Z.to_N 20) with 20.
+  change mtSetChunkSize with 1. change mtUserControl with 4. change mtWinAck with 5. change mtSetPeerBw with 6.
+  change mtAMF3Data with 15. change mtAMF3Command with 17. change mtAMF0Data with 18. change mtAMF0Command with 20.
+  rewrite H1, H4, H5, H6, H15, H17, H18, H20. reflexivity.
 Qed.
 
 (* requestTransaction's type switch and the constructors' defaults, as the source has them *)
